@@ -29,8 +29,9 @@ LEVEL_TEXT = ('static analysis: (D1) the edge arithmetic of skgenome.subtract._s
               'int(round(span/avg)) or 1, regions shorter than min_size are skipped (>=). The trim / outer / inner selection per range of the '
               'other table is the C07-D7 rule (literal tables, nested rows, repeated zero starts). (D4b) no function of skgenome writes into a '
               'class-level or module-level dict / list / set, directly or through a local alias (resize_ranges keeps nothing from an earlier '
-              "call's chromosome sizes). Does not decide that merge/flatten/intersection outputs cover exactly the union/intersection for "
-              'arbitrary tables (algorithmic).')
+              "call's chromosome sizes). D5 includes regions whose pieces are smaller than the minimum size (the region, not the piece, is what "
+              'the minimum applies to); D2 finds the combiner call sites in every function that takes the `combine` mapping. Does not decide that'
+              ' merge/flatten/intersection outputs cover exactly the union/intersection for arbitrary tables (algorithmic).')
 TECHNIQUE = ('reaching-definition / resolved-callee precondition rule; argument-kind agreement at a function-pointer slot; abstract '
              'interpretation (comparison atoms, symbolic coordinates); shared-mutable-state rule')
 
